@@ -315,11 +315,21 @@ def contracts():
         for nb in range(0, 3):
             cs.append(Merge(na, nb))
     cs += [Trim('start'), Trim('end'), SubGetItem('int'), SubGetItem('slice')]
-    return cs
+    from contracts import c19_substring
+    cs += c19_substring.contracts()
+    return [c for c in cs if c.key() not in PARKED]
+
+
+PARKED = []  # keys of contracts taken out of the check because they fail on the unchanged tree (candidate defects, see notes/)
 
 
 TRUSTED = ['pyvc symbolic executor; small symbolic sets/strings (concrete size, symbolic items); array.trace is uninterpreted (only how often it is called is checked)',
            'characters as integer codes; slice.indices as in CPython']
 ASSUMPTIONS = ['incoming summed sets contain pairwise distinct indices', 'BOUNDED: _trace with at most 4 indices (the loop is unrolled), _merge with at most 2+2 indices']
 NOT_COVERED = ['that the produced array means the index-notation reading (the _FunctionArrayOps backend), operator precedence, function calls, gradients, jump/mean',
-               '_Substring._find / split / partition with bracket levels, the whole of expression_v1']
+               'the whole of expression_v1']
+
+from contracts import c19_substring as _sub  # noqa: E402
+TRUSTED = TRUSTED + _sub.TRUSTED
+ASSUMPTIONS = ASSUMPTIONS + _sub.ASSUMPTIONS
+NOT_COVERED = NOT_COVERED + _sub.NOT_COVERED
